@@ -304,6 +304,11 @@ static void apply_msgs(int n) {
           if (ns > 2) { sprintf(tmp, "n=%u;", ns); vh_buf_add(&line, tmp, strlen(tmp)); }
           for (s = 0; s < ns; s++) {
             const unsigned char *q = p + off + 16 * s;
+            /* the layout the application's hooks supply (library default: one screen = the whole area) must
+               arrive unaltered */
+            { uint32_t wid = nscr_hook >= 0 ? s + 1 : 1, wfl = nscr_hook >= 0 ? s + 7 : 0; int wx = nscr_hook >= 0 ? (int)s : 0, wy = nscr_hook >= 0 ? (int)(2 * s + 1) : 0;
+              if (be32(q) != wid || be16(q + 4) != wx || be16(q + 6) != wy || be16(q + 8) != w || be16(q + 10) != h || be32(q + 12) != wfl)
+                O("!wire %d FAIL screen %u of the ExtendedDesktopSize is %u,%d,%d,%d,%d,%u", n, s, be32(q), be16(q + 4), be16(q + 6), be16(q + 8), be16(q + 10), be32(q + 12)); }
             if (ns > 2 && s != 0 && s != ns - 1) continue;
             sprintf(tmp, "%s%u,%d,%d,%d,%d,%u", (s && ns <= 2) || (ns > 2 && s) ? ";" : "", be32(q), be16(q + 4), be16(q + 6), be16(q + 8), be16(q + 10), be32(q + 12));
             vh_buf_add(&line, tmp, strlen(tmp));
